@@ -1,7 +1,7 @@
 (* Proofs/Alias_proofs.v — soundness of the ownership checker (C20): a flow accepted by `check` never
    modifies an object that existed before the flow started. *)
 From Coq Require Import List Arith Bool Lia.
-From Verif Require Import Lib.Heap Model.Alias.
+From Verif Require Import Lib.Heap Model.Alias Model.AliasTie.
 Import ListNotations.
 
 Lemma lookup_delk k o k' : lookup k' (delk k o) = if Nat.eqb k' k then None else lookup k' o.
@@ -145,3 +145,54 @@ Qed.
 
 (* the checker is not vacuous: a checked flow can run (progress is not claimed in general — a KeyError is a
    refusal — but the discipline does not rule executions out), witnessed in Props/C20.v *)
+
+(* ---- flows regenerated from the source (Gen/AliasGen.v): whatever list of flows the translator emits, if the
+   checker accepts all of them then no execution of any of them writes a pre-existing object *)
+Theorem checked_flows_no_static_write (gs : list gflow) :
+  forallb g_checked gs = true ->
+  forall g, In g gs ->
+  forall (h0 : heap) (e0 : env) s', run (g_flow g) (h0, e0, fun _ => false) s' ->
+  forall l, h0 l <> None -> fst (fst s') l = h0 l.
+Proof.
+  intros H g Hg h0 e0 s' Hr. apply (no_static_write h0 e0 (g_flow g) s'); [|exact Hr].
+  rewrite forallb_forall in H. exact (H g Hg).
+Qed.
+
+(* ---- the two facts the translator's path pruning rests on (harness/py2alias.py: `subsumed`, `prune`,
+   `prune_prefixes`): the checker is prefix-closed, and it is monotone in the typing (F below S) and in the
+   taint flag, so a path whose registers are typed no worse and which has executed no more is implied. *)
+Definition ty_le (a b : ty) : Prop := b = F -> a = F.
+Lemma check_from_mono p : forall t t' tn tn',
+  (forall x, ty_le (t x) (t' x)) -> (tn = true -> tn' = true) ->
+  check_from p t' tn' = true -> check_from p t tn = true.
+Proof.
+  induction p as [|i p IH]; intros t t' tn tn' Ht Htn Hc; [reflexivity|].
+  assert (HF : forall x, is_F (t' x) = true -> is_F (t x) = true).
+  { intros x Hx. destruct (t' x) eqn:E; [|discriminate]. now rewrite (Ht x E). }
+  assert (Hupd : forall x a a', ty_le a a' -> forall z, ty_le (upd_t t x a z) (upd_t t' x a' z)).
+  { intros x a a' Ha z. unfold upd_t. destruct (Nat.eqb z x); [exact Ha|apply Ht]. }
+  assert (Hor : forall b b', (b = true -> b' = true) -> (tn || b = true -> tn' || b' = true)).
+  { intros b b' Hb H. apply orb_true_iff in H as [H|H]; apply orb_true_iff; [left; auto|right; auto]. }
+  assert (Hneg : forall y, negb (is_F (t y)) = true -> negb (is_F (t' y)) = true).
+  { intros y Hy. destruct (is_F (t' y)) eqn:E; [rewrite (HF y E) in Hy; discriminate|reflexivity]. }
+  destruct i; cbn [check_from] in *.
+  - eapply IH; [apply Hupd; intros H; exact H| exact Htn|exact Hc].
+  - eapply IH; [apply Hupd| exact Htn|exact Hc].
+    intros H. destruct (is_F (t' y) && negb tn') eqn:E; [|discriminate].
+    apply andb_true_iff in E as [E1 E2]. rewrite (HF y E1). destruct tn; [rewrite (Htn eq_refl) in E2; discriminate|reflexivity].
+  - eapply IH; [apply Hupd; intros H; exact H| exact Htn|exact Hc].
+  - eapply IH; [apply Hupd; intros H; exact H| exact Htn|exact Hc].
+  - apply andb_true_iff in Hc as [H1 H2]. rewrite (HF x H1). cbn. eapply IH; [exact Ht| |exact H2]. apply Hor, Hneg.
+  - apply andb_true_iff in Hc as [H1 H2]. rewrite (HF x H1). cbn. eapply IH; [exact Ht|exact Htn|exact H2].
+  - apply andb_true_iff in Hc as [H1 H2]. rewrite (HF x H1). cbn. eapply IH; [exact Ht| |exact H2]. apply Hor, Hneg.
+  - apply andb_true_iff in Hc as [H1 H2]. rewrite (HF x H1). cbn. eapply IH; [exact Ht|exact Htn|exact H2].
+Qed.
+
+Lemma check_from_app p q : forall t tn,
+  check_from (p ++ q) t tn = check_from p t tn && (let '(t', tn') := types_after p t tn in check_from q t' tn').
+Proof.
+  induction p as [|i p IH]; intros t tn; [reflexivity|].
+  destruct i; cbn [app check_from types_after]; rewrite ?IH, ?andb_assoc; reflexivity.
+Qed.
+Lemma check_prefix_closed p q : check (p ++ q) = true -> check p = true.
+Proof. unfold check. rewrite check_from_app. intros H. now apply andb_true_iff in H as [H _]. Qed.
